@@ -65,18 +65,43 @@ theorem parseNatAux_padDigits (k n acc : Nat) :
     rw [h1, Nat.pow_succ]
     simp only [Nat.add_mul, Nat.mul_assoc, Nat.add_assoc]
 
-theorem numDigits_pos (n : Nat) : 1 ≤ numDigits n := by
-  unfold numDigits; split <;> omega
+theorem numDigitsF_pos (f n : Nat) : 1 ≤ numDigitsF f n := by
+  cases f with
+  | zero => simp [numDigitsF]
+  | succ f => unfold numDigitsF; split <;> omega
 
-theorem lt_pow_numDigits (n : Nat) : n < 10 ^ numDigits n := by
-  induction n using Nat.strongRecOn with
-  | _ n ih =>
-    unfold numDigits
+theorem numDigits_pos (n : Nat) : 1 ≤ numDigits n := numDigitsF_pos _ _
+
+theorem lt_pow_numDigitsF (f n : Nat) (h : n ≤ f) : n < 10 ^ numDigitsF f n := by
+  induction f generalizing n with
+  | zero => have : n = 0 := by omega
+            subst this; simp [numDigitsF]
+  | succ f ih =>
+    unfold numDigitsF
     split
     · simpa using ‹n < 10›
     · have := ih (n / 10) (by omega)
       rw [Nat.add_comm, Nat.pow_succ]
       omega
+
+theorem lt_pow_numDigits (n : Nat) : n < 10 ^ numDigits n := lt_pow_numDigitsF n n (Nat.le_refl n)
+
+theorem numDigitsF_le (f v w : Nat) (h : v < 10 ^ w) (hw : 1 ≤ w) : numDigitsF f v ≤ w := by
+  induction f generalizing v w with
+  | zero => simpa [numDigitsF] using hw
+  | succ f ih =>
+    unfold numDigitsF
+    split
+    · exact hw
+    · cases w with
+      | zero => omega
+      | succ w =>
+        have hw' : 1 ≤ w := by
+          cases w with
+          | zero => simp at h; omega
+          | succ _ => omega
+        have := ih (v / 10) w (by rw [Nat.pow_succ] at h; omega) hw'
+        omega
 
 theorem natStr_ne_nil (n : Nat) : natStr n ≠ [] := by
   intro h
@@ -100,19 +125,7 @@ theorem parseNat_natStr (n : Nat) : parseNat? (natStr n) = some n := by
 theorem zpad_length (w v : Nat) (h : v < 10 ^ w) (hw : 1 ≤ w) : (zpad w v).length = w := by
   unfold zpad
   rw [padDigits_length]
-  have : numDigits v ≤ w := by
-    induction w generalizing v with
-    | zero => omega
-    | succ w ih =>
-      unfold numDigits
-      split
-      · omega
-      · have hw' : 1 ≤ w := by
-          cases w with
-          | zero => simp at h; omega
-          | succ _ => omega
-        have := ih (v / 10) (by rw [Nat.pow_succ] at h; omega) hw'
-        omega
+  have : numDigits v ≤ w := numDigitsF_le _ _ _ h hw
   omega
 
 theorem parseNat_zpad (w v : Nat) : parseNat? (zpad w v) = some v := by
